@@ -261,6 +261,27 @@ def materialize(v):
     return v
 
 
+def near_twin(v):
+    t = type(v)
+    try:
+        if t is bool:
+            return int(v)
+        if t is int:
+            return float(v) if abs(v) < 2**53 else 'prev'
+        if t is float:
+            if v == 0:
+                return -v
+            if v == v and abs(v) < 2**53 and v.is_integer():
+                return int(v)
+        if t is str:
+            return v.encode('utf-8')
+        if t is bytes:
+            return v.decode('ascii')
+    except Exception:
+        pass
+    return 'prev'
+
+
 class RoundTrip(SubCheck):
     name = 'roundtrip'
 
@@ -310,12 +331,17 @@ class RoundTrip(SubCheck):
         try:
             # --- Cache accessors -------------------------------------------------------------
             c.clear()
-            c.set('k', 'prev')
+            # the key already holds something: where there is one, a value that compares equal to the new one but is another
+            # value (1 for 1.0, 0.0 for -0.0, True for 1, text for its bytes) - the new value must replace it all the same
+            prev = near_twin(expected)
+            if cfg['disk'] == 'JSONDisk' and not json_ok(prev):
+                prev = 'prev'
+            c.set('k', prev)
             try:
                 c.set('k', fresh_value(), read=is_stream, tag='tg', expire=None)
             except Exception as exc:
                 store_failed(exc, 'set')
-                if not same(c.get('k'), 'prev'):
+                if not same(c.get('k'), prev):
                     raise Violation('C01/rejected-but-altered', 'set(%s) raised %r but key now holds %s' % (short(expected), exc, short(c.get('k'))))
                 return {'nontrivial': True, 'classes': sorted(classes)}
             if bad == 'stream-fail':
